@@ -278,6 +278,9 @@ def check_batch(case, ctx, out, items):
             if (etype == 'AttributeError' and where.endswith('inverse')
                     and cellc_inside_not(ast)):
                 mech = 'cellcompl-inside-exprcompl'
+            if etype == 'RecursionError' and (
+                    M.expr_size(ast) >= 400 or expr_depth(ast) >= 25):
+                mech = 'recursion-depth'
             out.violation('expression-rejected',
                           f'{geom!r}: {etype}: {emsg} @ {where}', mech=mech,
                           policy=label)
@@ -301,6 +304,14 @@ def check_batch(case, ctx, out, items):
         out.judged += 1
 
 
+def expr_depth(expr):
+    if expr[0] in ('s', '^'):
+        return 0
+    if expr[0] in ('#', 'g'):
+        return 1 + expr_depth(expr[1])
+    return 1 + max(expr_depth(sub) for sub in expr[1:])
+
+
 def cellc_inside_not(expr, inside=False):
     if expr[0] == '^':
         return inside
@@ -322,7 +333,27 @@ def plan(tier):
     ncore = core_size(_CORE_LEAVES[tier]) * len(POLICIES)
     nbatch = (ncore + BATCH - 1) // BATCH
     return [('core', nbatch), ('random', _RANDOM_BATCHES[tier]),
-            ('e2e', _E2E[tier])]
+            ('e2e', _E2E[tier]), ('depth', 2)]
+
+
+def depth_items(rng):
+    '''Long flat expressions and deeply nested ones over nine surfaces.'''
+    def leaf(k):
+        sid = 1 + k % 9
+        return M.S(sid if (k * 7) % 3 else -sid)
+    items = []
+    for count in (100, 300, 600, 1000):
+        items.append((f'flat-{count}', (rng.choice('*:'),)
+                      + tuple(leaf(k) for k in range(count))))
+    for depth in (12, 24, 40, 60):
+        expr = leaf(0)
+        for k in range(1, depth + 1):
+            op = ':' if k % 2 else '*'
+            expr = (op, leaf(k), expr)
+            if k % 3 == 0:
+                expr = M.NOT(expr)
+        items.append((f'nest-{depth}', expr))
+    return items
 
 
 _E2E = {'quick': 40, 'thorough': 1500}
@@ -448,6 +479,17 @@ def run(case, ctx):
     pol_names = list(POLICIES)
     if case.family == 'e2e':
         return run_e2e(case, ctx, out)
+    if case.family == 'depth':
+        pname = pol_names[case.index % 2]
+        for label, ast in depth_items(rng):
+            items.append((f'{pname}:{label}', ast,
+                          render(ast, POLICIES[pname]), 'imp:n=1', '0'))
+        out.structure = f'depth[{case.index}]'
+        shim.setup()
+        check_batch(case, ctx, out, items)
+        out.counters['strings'] += len(items)
+        out.nontrivial = True
+        return out
     if case.family == 'core':
         maxleaves = _CORE_LEAVES[case.tier]
         start = case.index * BATCH
